@@ -118,3 +118,21 @@ package aggregates
 //@ func (*Array).Trigger$lit1
 //@   loop 1 invariant fill: 0 <= i && i <= itemTyped.count && len(out) == old(len(out)) + i
 //@   loop 1 step appended: len(out) == old(len(out)) + 1 && cls(out[len(out)-1]) == keycls(itemTyped)
+
+// DISTINCT variants: a multiset of value classes with multiplicities; the wrapped aggregate receives an addition
+// exactly when a class appears (0 -> 1) and a retraction exactly when it disappears (1 -> 0), so the wrapped
+// aggregate's multiset is the support of M; the reported value is the wrapped aggregate's.
+//@ spec riDistinct(c *Distinct) bool = addr(c.items) > 0 && forallK(k, has(c.items, k) ==> 0 < addr(get(c.items, k)) && addr(get(c.items, k)) < frontier() && get(c.items, k).count >= 1) && forallK(k1, forallK(k2, has(c.items, k1) && has(c.items, k2) && k1 != k2 ==> addr(get(c.items, k1)) != addr(get(c.items, k2))))
+//@ func (*Distinct).Add
+//@   requires riDistinct(c)
+//@   requires retraction ==> has(c.items, cls(value))
+//@   assumes !retraction && has(c.items, cls(value)) ==> get(c.items, cls(value)).count < 9223372036854775807
+//@   ensures ri.items: addr(c.items) > 0 && forallK(k, has(c.items, k) ==> 0 < addr(get(c.items, k)) && addr(get(c.items, k)) < frontier() && get(c.items, k).count >= 1)
+//@   ensures ri.separation: forallK(k1, forallK(k2, has(c.items, k1) && has(c.items, k2) && k1 != k2 ==> addr(get(c.items, k1)) != addr(get(c.items, k2))))
+//@   ensures add: !retraction ==> has(c.items, cls(value)) && get(c.items, cls(value)).count == ite(old(has(c.items, cls(value))), old(get(c.items, cls(value)).count), 0) + 1
+//@   ensures retract: retraction && old(get(c.items, cls(value)).count) > 1 ==> has(c.items, cls(value)) && get(c.items, cls(value)).count == old(get(c.items, cls(value)).count) - 1
+//@   ensures remove: retraction && old(get(c.items, cls(value)).count) == 1 ==> !has(c.items, cls(value))
+//@   ensures frame: forallK(k, k != cls(value) ==> has(c.items, k) == old(has(c.items, k)) && (has(c.items, k) ==> get(c.items, k).count == old(get(c.items, k).count)))
+//@   ensures wrapped: calls(Add) == old(calls(Add)) + ite((!retraction && !old(has(c.items, cls(value)))) || (retraction && old(get(c.items, cls(value)).count) == 1), 1, 0)
+//@ func (*Distinct).Trigger
+//@   ensures delegates: calls(Trigger) == old(calls(Trigger)) + 1
